@@ -14,7 +14,8 @@ MANIFEST = dict(
          "(element, occurrence) pair is measured on auxiliary instances; all permutations of all multisets over 3 symbols "
          "(lengths 3-5) and random longer sequences with shuffles are hashed, several in a row on the same instance; TLC "
          "validates for every call and position: selected pairs = a valid choice of the l smallest (exact ties tolerated), "
-         "indices in sequence order, signature = combined hash of the spelled elements (dictionary via the public API).",
+         "indices in sequence order, signature = combined hash of the spelled elements (dictionary via the public API)."
+         " A quarter of the cases each use the crate's identity hasher and a true identity hasher with neighbouring small integers as elements; exact ties at the selection boundary are rejected, not tolerated.",
     design_ref="DESIGN.md section 4, C10/C11",
     note="trusted: TLC, Json/IOUtils, the store/seed hooks (read-only / pin), rank abstraction; multiplicities up to 14 "
          "(the crate asserts l < 16 for the auxiliary instances)",
